@@ -112,6 +112,10 @@ def stretch(img, arg0=None, arg1=None, dtype=np.uint8):
         return img
     img *= float(max - min)/ptp
     if min: img += min
+    if max >= min:
+        # rounding in the two steps above can overshoot `max` by one ulp, which
+        # the truncating cast turns into max+1 when the range is negative
+        np.minimum(img, max, out=img)
     return img.astype(dtype, copy=False)
 
 def as_rgb(r, g, b):
